@@ -29,7 +29,9 @@
 (* there was none then - a reader never sees a slot half-way (drift note only).*)
 (* `analyze` readers likewise: checkpointed or not and the changed targets as  *)
 (* of one instant (the work tree does not change while invocations run), or an *)
-(* error exactly while the checkpoint file is torn.                            *)
+(* error exactly while the checkpoint file is torn.  `checkpoint show` readers: *)
+(* the checkpoint some update wrote, whole, as of one instant - or an error    *)
+(* while there is none or the file is being rewritten.                         *)
 EXTENDS Monorail, Json, IOUtils
 
 Tr == ndJsonDeserialize(IOEnv.TRACE)
@@ -91,6 +93,9 @@ Event ==
   \/ Is("answered") /\ view[p] = (IF Ev.ok THEN [k |-> "ana", set |-> Ev.checkpointed, targets |-> { Ev.targets[i] : i \in DOMAIN Ev.targets }]
                                              ELSE [k |-> "ana_err"])
                     /\ Analyze(p) /\ view' = [view EXCEPT ![p] = NoView] /\ l' = l + 1 /\ UNCHANGED doomed
+  \* `checkpoint show` has answered: the stored checkpoint (commit, pending checksums) or an error (none / being rewritten)
+  \/ Is("cp_shown") /\ view[p] = (IF Ev.ok THEN [k |-> "cp", id |-> Ev.id, pend |-> Ev.pend] ELSE [k |-> "cp_err"])
+                    /\ CpShow(p) /\ view' = [view EXCEPT ![p] = NoView] /\ l' = l + 1 /\ UNCHANGED doomed
   \/ Is("reaped") /\ inv[p] = Idle /\ UNCHANGED vars /\ view' = [view EXCEPT ![p] = NoView] /\ l' = l + 1 /\ UNCHANGED doomed
   \* exit: whoever got the lock has finished (silent Finish); whoever did not has lost (silent TryLock) with a lock error
   \/ Is("exit") /\ inv[p] = Idle /\ UNCHANGED vars
@@ -102,6 +107,8 @@ Die(p) == /\ p \in doomed /\ inv[p] # Idle
 ReadNow(p) == /\ inv[p].pc = "start" /\ inv[p].api \in Readers /\ view[p] = NoView
               /\ view' = [view EXCEPT ![p] =
                     IF inv[p].api = "result_show" THEN [k |-> "slot", v |-> IF ResultShows(store, N) # 0 THEN store.ptr ELSE 0]
+                    ELSE IF inv[p].api = "cp_show" THEN (IF cpfile = "torn" \/ ~repo.cp.set THEN [k |-> "cp_err"]
+                                                         ELSE [k |-> "cp", id |-> repo.cp.id, pend |-> repo.cp.pend])
                     ELSE IF cpfile = "torn" THEN [k |-> "ana_err"]
                     ELSE [k |-> "ana", set |-> repo.cp.set, targets |-> AffectedNow]]
               /\ UNCHANGED <<vars, l, doomed>>
